@@ -13,7 +13,10 @@ package benchstat
 //@ func Sort(t *Table, order Order)
 //@   props C17
 //@   requires t != nil
+//@   modifies t.Rows
 //@   ensures stableSorted(iface(t.Rows))
+//@   ensures t.Rows === old(t.Rows)
+//@   ensures forall i int :: 0 <= i < len(t.Rows) ==> exists j int :: 0 <= j < len(t.Rows) && t.Rows[i] == old(t.Rows[j])
 
 // The delta tests compare the retained values (RValues) of the two sides, in
 // the order old, new, two-sided.
